@@ -6,7 +6,7 @@
 (* changes of the default / maximum limits mid-history.                      *)
 EXTENDS Genesis
 
-CONSTANTS MaxHeight, MaxTx, MaxFail, MaxReg, MaxRec, Presets, FailingGov
+CONSTANTS MaxHeight, MaxTx, MaxFail, MaxReg, MaxRec, Presets, FailingGov, Pre
 VARIABLES st, phase, hist, nTx, nFail
 vars == <<st, phase, hist, nTx, nFail>>
 
@@ -21,7 +21,10 @@ Gen == [accts |-> Accts,
         bcn |-> [feeReg |-> 4, feeRec |-> 1, feePur |-> 1, denom |-> "nund", def |-> 2, max |-> 3, startId |-> 1],
         str |-> [feeNum |-> 1, feeDen |-> 100]]
 
-Init == st = StateOf(Gen) /\ phase = "idle" /\ hist = <<[a |-> "InitChain", g |-> Gen]>> /\ nTx = 0 /\ nFail = 0 /\ GoalRegsInit
+\* Pre: a scripted prefix (events) executed before the exploration starts; it ends inside an open block
+Init == /\ st = FoldL(LAMBDA ev, s : Step(s, ev).st, StateOf(Gen), Pre)
+        /\ phase = (IF Pre = <<>> THEN "idle" ELSE "block")
+        /\ hist = <<[a |-> "InitChain", g |-> Gen]>> \o Pre /\ nTx = 0 /\ nFail = 0 /\ GoalRegsInit
 
 \* a registry transaction offers exactly the fee of its top-level operations
 FeeTx(msgs) == LET f == SumFees(st.wrk.p, TopOps(msgs, "wrk")) + SumFees(st.bcn.p, TopOps(msgs, "bcn"))
@@ -95,6 +98,7 @@ SweepPrefix == << [a |-> "BeginBlock", dt |-> 1000],
                   TxFee(<<BRec("A1", 1)>>, [nund |-> 1]), TxFee(<<BRec("A1", 1)>>, [nund |-> 1]),
                   EndEv, ComEv, [a |-> "BeginBlock", dt |-> 1000] >>
 
+NoPre == <<>>
 SmallCap == 2      \* export cap of the model (the code keeps the newest 20,000)
 PresetsQuick == << [feeReg |-> 4, feeRec |-> 1, feePur |-> 1, denom |-> "nund", def |-> 2, max |-> 2],
                    [feeReg |-> 4, feeRec |-> 1, feePur |-> 1, denom |-> "nund", def |-> 1, max |-> 1] >>
